@@ -402,7 +402,7 @@ def evaluate(ctx, cases, cfgs, sample_rate):
 
 
 def run(ctx):
-    return evaluate(ctx, gen(ctx), ["dbg", "rel"], 0.15 if ctx.quick else 0.02)
+    return evaluate(ctx, gen(ctx), ["dbg", "rel", "isa"], 0.15 if ctx.quick else 0.02)
 
 
 def replay(ctx):
